@@ -8,6 +8,7 @@ import (
 	"math"
 	"strings"
 	"testing"
+	"verifharness/internal/ev"
 
 	geom "github.com/twpayne/go-geom"
 	"github.com/twpayne/go-geom/encoding/wkb"
@@ -711,9 +712,25 @@ func prop(c Case) error {
 			if op.Bad >= 0 {
 				k = op.Bad % len(st.parts)
 			}
+			if len(op.Parts) == 1 && c.Kind == model.MultiPolygon {
+				// a view that is to grow: the last polygon that has coordinates (whatever
+				// follows it has none, so its growth has room) rather than the drawn one
+				for j := len(st.parts) - 1; j >= 0; j-- {
+					if !st.parts[j].Empty() {
+						k = j
+						break
+					}
+				}
+			}
 			v := part(recv, k)
 			np := *st.parts[k].Clone()
-			if len(op.Parts) == 1 && k == len(st.parts)-1 && op.Parts[0].Lay() == st.layout {
+			// (also the view of an earlier polygon when no coordinate follows it in the
+			// receiver: every later polygon is without rings or has rings without points)
+			tailEmpty := true
+			for j := k + 1; j < len(st.parts); j++ {
+				tailEmpty = tailEmpty && st.parts[j].Empty()
+			}
+			if len(op.Parts) == 1 && tailEmpty && op.Parts[0].Lay() == st.layout {
 				if pg, ok := v.(*geom.Polygon); ok {
 					ring, err := model.Build(&op.Parts[0], model.RouteFlat)
 					if err != nil {
@@ -723,6 +740,9 @@ func prop(c Case) error {
 						return fmt.Errorf("%s: Push onto the polygon returned by Polygon(%d): %v", step, k, err)
 					}
 					np.C2 = append(np.C2, op.Parts[0].Clone().C1)
+					if k != len(st.parts)-1 {
+						ev.Default.Count("pushview_grown_before_coordinate_less_tail", 1)
+					}
 				}
 			}
 			if err := push(recv, v); err != nil {
